@@ -1596,3 +1596,46 @@ def one_salt_per_handle(ctx, p):
     ctx.ob(p + 'a handle-keeps-the-stored-salt', 'K1-must-pass', b.path,
            'on every path the options kept in DbInner get the salt of the stored metadata (the salt the columns were opened with), whatever salt the caller passed',
            w is None, '' if w is None else 'path that keeps the caller\'s salt: ' + lib.short_path(b, w), b.loc(stores[0]))
+
+
+def free_list_mirror_in_step(ctx, p):
+    """Tables of a multitree column keep the on-disk free list (last_removed + links in tombstones) mirrored in memory
+    (FreeEntries.stack) so that commit-time claims need not read tombstones. The mirror is only right while every change of the
+    head is accompanied by the matching stack operation under the same guard: clear_slot pushes the slot it freed, next_free and
+    claim_entries pop the slot they hand out, and claim_entries takes the new head from the mirror. A head change without its stack
+    step hands a slot out twice (two values share storage) or loses freed slots."""
+    F = ctx.F
+    VT = 'table::ValueTable::'
+    n = 0
+    for fn, op, mode in ((VT + 'clear_slot', 'push', 'after'), (VT + 'next_free', 'pop', 'either'), (VT + 'claim_entries', 'pop', 'either')):
+        b = ctx.body(fn)
+        if not b:
+            continue
+        stores = [bi for bi, t in b.calls() if bi in b.normal_blocks() and call_matches(t, lib.ATOMIC_STORE) and '.ValueTable.last_removed' in lib.receiver_fields(b, t, 0)]
+        ops = [bi for bi, t in b.calls() if bi in b.normal_blocks() and call_matches(t, ['re:^std::vec::Vec::<T(, A)?>::%s$' % op, 're:^alloc::vec::Vec::<T(, A)?>::%s$' % op])
+               and '.FreeEntries.stack' in lib.receiver_fields(b, t, 0)]
+        ctx.ob(p + '0 mirror-anchor %s' % fn, 'anchor', fn, 'the function changes the free-list head and the in-memory mirror (%s)' % op, len(stores) >= 1 and len(ops) >= 1, 'head stores %s stack %s %s' % (stores, op, ops))
+        if not stores or not ops:
+            continue
+        some = lib.prune_option_field(b, '.ValueTable.free_entries', True)
+        for i, s in enumerate(stores):
+            n += 1
+            before = any(b.dominates(o, s) for o in ops)
+            left = lib.ok_return_unreachable_avoiding(b, ops, sources=[s], removed_edges=frozenset(some))
+            ok = (left is None) or (mode == 'either' and before)
+            ctx.ob(p + ' mirror-steps-with-head %s #%d' % (fn, i), 'K1-must-pass', fn,
+                   'with a free-entry mirror present, a store to last_removed is accompanied by the %s of the mirror on every success path' % op, ok,
+                   '' if ok else 'path from the head store to Ok without the stack %s: %s' % (op, lib.short_path(b, left)), b.loc(s))
+        if op == 'push':
+            for o in ops:
+                r = lib.root_local(b, b.term(o)['a'][1]) if len(b.term(o)['a']) > 1 else None
+                rs = [lib.root_local(b, b.term(s)['a'][1]) for s in stores if len(b.term(s)['a']) > 1]
+                ctx.ob(p + '1 mirror-pushes-the-freed-slot %s' % fn, 'K9-provenance', fn, 'the slot pushed onto the mirror is the slot stored as the new head (same parameter)',
+                       r is not None and 1 <= r <= b.argc and all(x == r for x in rs), 'push root %s, head-store roots %s' % (r, rs), b.loc(o))
+        if fn.endswith('claim_entries'):
+            for i, s in enumerate(stores):
+                a = b.term(s)['a']
+                sl = backward_slice(b, [op_place(a[1])]) if len(a) > 1 and op_place(a[1]) is not None else None
+                ok = bool(sl) and '.FreeEntries.stack' in sl.fields and any(re.search(r'::last$', c) for c in sl.calls)
+                ctx.ob(p + '2 claimed-head-comes-from-the-mirror #%d' % i, 'K9-provenance', fn, 'claim_entries takes the next free-list head from the top of the mirror after the pop (the only copy of the link it may use: it has no log to read tombstones through)', ok, '', b.loc(s))
+    ctx.ob(p + '9 mirror-sites', 'anchor', '-', 'head stores checked against the mirror', n >= 3, 'found %d' % n)
